@@ -768,6 +768,44 @@ func corpus(seed int64) []rescorr.Case {
 		"submodule b-s1 {\n  belongs-to b { prefix pb; }\n  import a { prefix pa; }\n  grouping g {\n    container box {\n      leaf inner { type string; }\n    }\n  }\n" +
 			"  augment \"/pa:top\" { leaf before { type string; } uses g; leaf after { type string; } }\n}\n"},
 		coll, coll)
+	// 20.-22. several revisions of one module (or submodule) loaded at once: the augments of every
+	// loaded revision are applied or reported, not only those of the revision the bare name denotes
+	rbase := "module base {\n  namespace \"urn:base\";\n  prefix b;\n  container c {\n    leaf l { type string; }\n  }\n}\n"
+	rnm := map[string]string{"urn:base": "base", "urn:ext": "ext", "urn:user": "user", "urn:bad": "bad", "urn:m": "m"}
+	extRev := func(date, aug string) string {
+		return "module ext {\n  namespace \"urn:ext\";\n  prefix e;\n  import base { prefix b; }\n  revision " + date + ";\n" + aug + "}\n"
+	}
+	out = append(out, corpusCase("revisions-old-augment-and-chain", []string{"base.yang", "ext@2020-01-01.yang", "ext@2021-01-01.yang", "user.yang"}, []string{
+		rbase,
+		extRev("2020-01-01", "  augment \"/b:c\" { container old-box { leaf o { type string; } } }\n"),
+		extRev("2021-01-01", "  augment \"/b:c\" { container new-box { leaf n { type string; } } }\n"),
+		"module user {\n  namespace \"urn:user\";\n  prefix u;\n  import base { prefix b; }\n  import ext { prefix e; revision-date 2020-01-01; }\n" +
+			"  augment \"/b:c/e:old-box\" { leaf mine { type string; } }\n}\n"},
+		rnm, []cAug{ap(nd("base", "/base/c/old-box", "urn:ext")), ap(nd("base", "/base/c/new-box", "urn:ext")), ap(nd("base", "/base/c/old-box/mine", "urn:user"))},
+		[]gen.C07Node{nd("base", "/base", "urn:base"), nd("base", "/base/c", "urn:base"), nd("base", "/base/c/l", "urn:base"),
+			nd("base", "/base/c/new-box", "urn:ext"), nd("base", "/base/c/new-box/n", "urn:ext"), nd("base", "/base/c/old-box", "urn:ext"),
+			nd("base", "/base/c/old-box/mine", "urn:user"), nd("base", "/base/c/old-box/o", "urn:ext"),
+			nd("ext@2020-01-01", "/ext", "urn:ext"), nd("ext@2021-01-01", "/ext", "urn:ext"), nd("user", "/user", "urn:user")},
+		seed+int64(len(out))))
+	badRev := func(date, aug string) string {
+		return "module bad {\n  namespace \"urn:bad\";\n  prefix bad;\n  import base { prefix b; }\n  revision " + date + ";\n" + aug + "}\n"
+	}
+	out = append(out, corpusCase("revisions-old-missing-target", []string{"base.yang", "bad@2020-01-01.yang", "bad@2021-01-01.yang"}, []string{
+		rbase, badRev("2020-01-01", "  augment \"/b:c/b:nowhere\" { leaf x { type string; } }\n"), badRev("2021-01-01", "")},
+		rnm, []cAug{{expect: gen.C07MissingT}}, nil, seed+int64(len(out))))
+	subRev := func(date, body string) string {
+		return "submodule sub {\n  belongs-to m { prefix m; }\n  import base { prefix b; }\n  revision " + date + ";\n" + body + "}\n"
+	}
+	out = append(out, corpusCase("revisions-of-a-submodule", []string{"base.yang", "m.yang", "sub@2020-01-01.yang", "sub@2021-01-01.yang"}, []string{
+		rbase,
+		"module m {\n  namespace \"urn:m\";\n  prefix m;\n  import base { prefix b; }\n  include sub;\n  container mc {\n    leaf x { type string; }\n  }\n}\n",
+		subRev("2020-01-01", "  container subold;\n  augment \"/b:c\" { leaf fromoldsub { type string; } }\n  augment \"/m:mc\" { leaf fromoldsub2 { type string; } }\n"),
+		subRev("2021-01-01", "  container subnew;\n  augment \"/b:c\" { leaf fromnewsub { type string; } }\n")},
+		rnm, []cAug{ap(nd("base", "/base/c/fromoldsub", "urn:m")), ap(nd("m", "/m/mc/fromoldsub2", "urn:m")), ap(nd("base", "/base/c/fromnewsub", "urn:m"))},
+		[]gen.C07Node{nd("base", "/base", "urn:base"), nd("base", "/base/c", "urn:base"), nd("base", "/base/c/l", "urn:base"),
+			nd("base", "/base/c/fromoldsub", "urn:m"), nd("base", "/base/c/fromnewsub", "urn:m"),
+			nd("m", "/m", "urn:m"), nd("m", "/m/mc", "urn:m"), nd("m", "/m/mc/x", "urn:m"), nd("m", "/m/mc/fromoldsub2", "urn:m"), nd("m", "/m/subnew", "urn:m")},
+		seed+int64(len(out))))
 	return out
 }
 
@@ -801,6 +839,10 @@ func shapeOf(i int) int {
 		// nothing else fails: a fifth of the named sets
 		return gen.C07SharedUses
 	}
+	if (i/2)%5 == 4 {
+		// several revisions of one module or submodule loaded at once: also a fifth
+		return gen.C07MultiRev
+	}
 	shape := 1 + (i/2)%(gen.C07NumShapes-1)
 	if shape == gen.C07ImplicitCase && (i/2/(gen.C07NumShapes-1))%4 != 0 {
 		shape = gen.C07ChainWorst + (i/2)%2
@@ -826,7 +868,7 @@ func main() {
 	const batch = 4000
 	distinct := lib.NewDistinct()
 	all := lib.NewDistinct()
-	var clean, withErr, outside, skipped, outsideClaim, variantsRun, expClean, expErr, exhaustive, total, childlessSets, childlessSets2, sharedOnlySets int64
+	var clean, withErr, outside, skipped, outsideClaim, variantsRun, expClean, expErr, exhaustive, total, childlessSets, childlessSets2, sharedOnlySets, oldRevSets, multiRevSets int64
 	shapeCount := map[string]int64{}
 	expectCount := map[string]int64{}
 	originCount := map[string]int64{}
@@ -870,6 +912,22 @@ func main() {
 			}
 			if anyFail && sharedOnly {
 				sharedOnlySets++
+			}
+			for _, a := range k.Augs {
+				if a.OldRevision {
+					oldRevSets++
+					break
+				}
+			}
+			multi := map[string]bool{}
+			for _, n := range o.Case.Names {
+				if i := strings.Index(n, "@"); i > 0 {
+					if multi[n[:i]] {
+						multiRevSets++
+						break
+					}
+					multi[n[:i]] = true
+				}
 			}
 			if len(childless) > 0 {
 				childlessSets++
@@ -1024,6 +1082,8 @@ func main() {
 	res.Distribution["sets_augmenting_a_childless_grouping_container"] = childlessSets
 	res.Distribution["sets_augmenting_two_or_more_childless_instances"] = childlessSets2
 	res.Distribution["sets_whose_only_expected_failure_is_a_shared_grouping_collision"] = sharedOnlySets
+	res.Distribution["sets_with_several_revisions_of_one_module_or_submodule"] = multiRevSets
+	res.Distribution["sets_with_an_augment_written_in_a_non_latest_revision"] = oldRevSets
 	res.Distribution["outside_model"] = outside
 	res.Distribution["go_parse_rejected"] = skipped
 	res.Distribution["outside_claim(implicit case as target)"] = outsideClaim
